@@ -5,7 +5,9 @@ reference that sorts (-priority, registration sequence number) - a different alg
 """
 from mc.engine import hbfs
 from mc.engine.report import Violation
-from mc.engine.seams import Canon
+from mc.engine.seams import Canon, reset_library
+
+import numpy as np
 
 import ECAgent.Core as Core
 from ECAgent.Collectors import Collector
@@ -17,10 +19,22 @@ THOROUGH_POOL = [('p1', 'p1', 2), ('p2', 'p2', 2), ('p3', 'p3', 2), ('q1', 'q1',
                  ('q3', 'q3', 1), ('r1', 'r1', 0), ('r2', 'r2', 0), ('r3', 'r3', 0), ('s1', 's1', -1),
                  ('s2', 's2', -1), ('k', 'k', None), ('q1x', 'q1', 0)]
 
+# unusual but legal priorities / system objects: numpy integer scalars (unsigned, minimum of a signed type), integers
+# beyond 64 bits, and a system object that is falsy (defines __len__ -> 0)
+ODD_POOL = [('u3', 'u3', ['uint8', 3]), ('u0', 'u0', ['uint8', 0]), ('m', 'm', ['int8', -128]), ('big', 'big', 2 ** 70),
+            ('f', 'f', 0, 'falsy'), ('n64', 'n64', ['int64', -3])]
+
+
+def decode_prio(p):
+    if isinstance(p, list):
+        return getattr(np, p[0])(p[1])
+    return p
+
+
 META = {
     'rule': 'BFS over histories of add(system)/remove(id)/step on real System objects; a case is a history; '
             'non-trivial = leads to a canonical state not seen before; outcomes = distinct execution orders observed',
-    'alphabet': {'quick_pool(key,id,priority)': QUICK_POOL, 'thorough_pool': THOROUGH_POOL,
+    'alphabet': {'quick_pool(key,id,priority)': QUICK_POOL, 'thorough_pool': THOROUGH_POOL, 'odd_pool': ODD_POOL,
                  'ops': 'add(key) for every pool object, remove(id) for every id plus unknown id zz, step'},
     'bounds': {'quick': 'fixpoint over quick_pool', 'thorough': 'fixpoint over quick_pool + depth-6 no-dedup leg + '
                'thorough_pool to depth bound 7 (cap reported)'},
@@ -41,6 +55,10 @@ def make_recorder(log):
         def execute(self):
             log.append(self.key)
 
+    class FalsyRec(Rec):
+        def __len__(self):        # e.g. "number of buffered items": the object is falsy while that is 0
+            return 0
+
     class RecCollector(Collector):
         def __init__(self, key, id, model):
             super().__init__(id, model)   # default collector priority
@@ -49,7 +67,7 @@ def make_recorder(log):
         def collect(self):
             log.append(self.key)
 
-    return Rec, RecCollector
+    return Rec, RecCollector, FalsyRec
 
 
 class World:
@@ -68,16 +86,19 @@ class Harness:
         w = World()
         w.model = Core.Model(seed=1)
         w.log = []
-        Rec, RecC = make_recorder(w.log)
+        Rec, RecC, Falsy = make_recorder(w.log)
         w.objs = {}
         w.prio = {}
-        for key, sid, prio in self.pool:
+        for entry in self.pool:
+            key, sid, prio = entry[0], entry[1], entry[2]
             if prio is None:
                 o = RecC(key, sid, w.model)
+            elif len(entry) > 3 and entry[3] == 'falsy':
+                o = Falsy(key, sid, w.model, decode_prio(prio))
             else:
-                o = Rec(key, sid, w.model, prio)
+                o = Rec(key, sid, w.model, decode_prio(prio))
             w.objs[key] = o
-            w.prio[key] = o.priority   # the collector's default is read off the real object: "default -1" is
+            w.prio[key] = int(o.priority)   # the collector's default is read off the real object: "default -1" is
             #                            asserted separately below
         w.ref = []          # list of (priority, seq, key)
         w.seq = 0
@@ -159,7 +180,7 @@ class Harness:
                             expected=-1, observed=w.objs['k'].priority)
 
     def canon(self, w):
-        return self.cn(w.model, [w.objs[k] for k, _, _ in self.pool])
+        return self.cn(w.model, [w.objs[p[0]] for p in self.pool])
 
     def refstate(self, w):
         # registration order and scheduling order; sequence numbers only matter relative to each other
@@ -170,10 +191,34 @@ class Harness:
 
 
 def self_id(h, key):
-    for k, sid, _ in h.pool:
-        if k == key:
-            return sid
+    for p in h.pool:
+        if p[0] == key:
+            return p[1]
     raise KeyError(key)
+
+
+def long_history(case):
+    """One deep history: a transient system is registered and removed n times, then the order of a small set is judged.
+    (Exhaustive exploration cannot reach counters that need a million registrations; this single path does.)"""
+    reset_library()
+    n = case['cycles']
+    m = Core.Model(seed=1)
+    log = []
+    Rec, _, _ = make_recorder(log)
+    keep = Rec('k5', 'k5', m, 5)
+    m.systems.add_system(keep)
+    tmp = Rec('tmp', 'tmp', m, 1)
+    for _ in range(n):
+        m.systems.add_system(tmp)
+        m.systems.remove_system('tmp')
+    late = [Rec('p4', 'p4', m, 4), Rec('p5', 'p5', m, 5), Rec('p6', 'p6', m, 6), Rec('q5', 'q5', m, 5)]
+    for o in late:
+        m.systems.add_system(o)
+    m.execute()
+    exp = ['p6', 'k5', 'p5', 'q5', 'p4']
+    if log != exp:
+        raise Violation(f'after {n} register/remove cycles the execution order is wrong', expected=exp, observed=log)
+    return tuple(log)
 
 
 def run(ctx):
@@ -182,9 +227,30 @@ def run(ctx):
     ctx.leg('quick_pool', **r)
     if not r.get('fixpoint'):
         ctx.cap('quick_pool: fixpoint not reached')
-    if ctx.tier == 'thorough' and not ctx.violations:
+    if ctx.violations:
+        return
+    ho = Harness(ODD_POOL)
+    r = hbfs.explore(ctx, ho, 'odd_pool', max_depth=40, procs=ctx.procs)
+    ctx.leg('odd_pool', **r)
+    if not r.get('fixpoint'):
+        ctx.cap('odd_pool: fixpoint not reached')
+    if ctx.violations:
+        return
+    for cycles in ((70000,) if ctx.tier == 'quick' else (70000, 2 ** 20 + 16)):
+        case = {'leg': 'long_history', 'cycles': cycles}
+        ctx.traces += 1
+        ctx.transitions += 2 * cycles
+        try:
+            ctx.outcome(hbfs._guard(long_history, case))
+        except Violation as v:
+            ctx.report(case, v)
+            return
+    ctx.leg('long_history', note='single deep histories of 70 000 (thorough: 2^20+16) register/remove cycles')
+    if ctx.tier == 'thorough':
         r = hbfs.explore(ctx, h, 'quick_pool_nodedup', max_depth=4, dedup=False, procs=ctx.procs)
         ctx.leg('quick_pool_nodedup', **r)
+        if ctx.violations:
+            return
         h2 = Harness(THOROUGH_POOL)
         r = hbfs.explore(ctx, h2, 'thorough_pool', max_depth=5, procs=ctx.procs)
         ctx.leg('thorough_pool', **r)
@@ -194,5 +260,8 @@ def run(ctx):
 
 
 def replay(case):
+    if case['leg'] == 'long_history':
+        hbfs._guard(long_history, case)
+        return
     h = Harness(case['config']['pool'])
     hbfs.replay_case(h, case)
